@@ -149,7 +149,11 @@ def schema_dump(alias='default', names=False, skip=BOOKKEEPING_TABLES):
 
 def fk_check(alias='default'):
     cur = _cursor(alias)
-    cur.execute('PRAGMA foreign_key_check')
+    try:
+        cur.execute('PRAGMA foreign_key_check')
+    except Exception as e:     # e.g. "foreign key mismatch": the schema's
+        # REFERENCES clause names a column that is not a key of the parent
+        return [('foreign_key_check-failed', str(e))]
     return [tuple(r) for r in cur.fetchall()]
 
 
